@@ -29,6 +29,7 @@ func runC12(c *Ctx) {
 	c.rule("T2", "in a runner's select the timeout/cancel case triggers the action's stop signal before waiting for the action and yields the timeout kind; the completion case yields the action's own result", 4)
 	c.rule("T3", "every cancel function from context.With* is called on every exit or registered in a CancelFunctionStore; every store created in a function is cancelled on every exit", 5)
 	c.rule("T4", "CancelFunctionStore.cancelFunctions is appended under mu.Lock and read under at least mu.RLock; Cancel's loop has no early exit", 4)
+	c.rule("T11", "after a runner's select, whether the result channel is received from once more is decided by the case the select took (its index, a flag set in the completion case), never by a property of the error: the channel carries one value", 1)
 	c.rule("T7", "the runners report the end of a context by its Err() (converted): context.Cause is not used in package parallelisation or in commonerrors", 0)
 	c.rule("T6", "Parallelise: the value handed to reflect.Append is not the bare reflect.ValueOf of a result that may be nil: its validity is tested (nil results are results too)", 1)
 	c.rule("T8", "Parallelise: each goroutine is handed its argument by value — the element is read from the caller's list before the goroutine is started, not whenever it gets to run (the function returns at the first error, before every goroutine has run)", 1)
@@ -485,6 +486,55 @@ func (c *Ctx) c12Select(f *ssa.Function) {
 		if tb == nil {
 			c.undecided("T2", key, c.ipos(sel), "cannot locate the timeout case")
 			return
+		}
+		// T11: the result channel carries one value. After the select, whether the runner still has to receive it is a
+		// matter of which case the select took — the index, or a flag set in the completion case — not of what the error
+		// looks like: an action that finished in time with an error of the 'timeout' kind (a nested runner, a deadline of
+		// its own) has had its only value consumed by the select, and a second receive blocks for ever.
+		{
+			n := 0
+			allInstrs(f, func(j ssa.Instruction) {
+				r, ok := j.(*ssa.UnOp)
+				if !ok || r.Op != token.ARROW || chanOrigin(r.X) != resultChan || !sel.Block().Dominates(r.Block()) || r.Block() == sel.Block() {
+					return
+				}
+				if cb := selectCase(sel, timeoutIdx); cb != nil && cb.Dominates(r.Block()) {
+					return // inside the timeout case: the select itself says the value is still to come
+				}
+				k := key + ":wait-decided-by-the-case-taken"
+				if n > 0 {
+					k += "#" + strconv.Itoa(n)
+				}
+				n++
+				guards := 0
+				bad := ""
+				for _, b := range f.Blocks {
+					ifi, ok := b.Instrs[len(b.Instrs)-1].(*ssa.If)
+					if !ok || !sel.Block().Dominates(b) {
+						continue
+					}
+					if !edgeDominates(b, 0, r.Block()) && !edgeDominates(b, 1, r.Block()) {
+						continue
+					}
+					guards++
+					for _, l := range sources(ifi.Cond, deriveOpts{through: func(string) bool { return true }}) {
+						if isErrorType(l.Type()) {
+							bad = c.ipos(ifi)
+						}
+						if ex, ok := l.(*ssa.Extract); ok && ex.Tuple == ssa.Value(sel) && ex.Index >= 2 {
+							bad = c.ipos(ifi) // a value received by the select
+						}
+					}
+				}
+				switch {
+				case guards == 0:
+					c.violate("T11", k, c.ipos(r), "the result channel is received from once more after the select on every path: when the completion case was taken its only value is gone, and the runner blocks for ever")
+				case bad != "":
+					c.violate("T11", k, bad, "whether the runner waits for the action once more (the receive at "+c.ipos(r)+") is decided by what the error looks like: an action that finishes before the deadline with an error of the 'timeout' kind — a nested runner that timed out, a deadline of its own — has had its only value taken by the select, and the second receive never returns: the runner blocks for ever although the action is over")
+				default:
+					c.ok("T11", k, c.ipos(r), "the wait after the select is decided by a flag or by the case taken, not by the error")
+				}
+			})
 		}
 		// the stop signal: a send on a local channel passed to the action, or a call of the cancel function
 		// whose context is passed to the action goroutine
